@@ -107,10 +107,31 @@ func C16(p *core.Program, r *core.Report) {
 	}
 
 	// ---- Q2
-	gp := mustInl(p, r, "Q2", "(*"+paginationPkg+".PageNumberFinder).getPageInfoAndText")
+	// the helper that turns a numbered anchor into a PageInfo is found by what it is: the
+	// unexported function below PageNumberFinder.FindOutlink that takes the anchor and the page URL
+	// and makes an info.PageInfo (its name, receiver and extra results may change)
+	var gp *ssa.Function
+	if fo2 := mustFunc(p, r, "Q2", "(*"+paginationPkg+".PageNumberFinder).FindOutlink"); fo2 != nil {
+		var cands []*ssa.Function
+		for _, f := range p.StaticRegion(fo2)[1:] {
+			if paramIndexOfType(f, "*html.Node") < 0 || paramIndexOfType(f, "*url.URL") < 0 || len(allocsOf(f, "/internal/pagination/info", "PageInfo")) == 0 {
+				continue
+			}
+			if res := f.Signature.Results(); res.Len() == 0 || !strings.HasSuffix(res.At(0).Type().String(), "info.PageInfo") {
+				continue
+			}
+			cands = append(cands, f)
+		}
+		if len(cands) == 1 {
+			gp = p.Inlined(cands[0])
+		} else {
+			r.Undecided("Q2", "the helper that makes a PageInfo from a numbered anchor", fmt.Sprintf("expected one unexported function (anchor, page URL) -> *info.PageInfo below PageNumberFinder.FindOutlink, found %d", len(cands)))
+		}
+	}
 	if gp != nil {
-		href := `stringutil.CreateAbsoluteURL(dom.GetAttribute($1,"href"),$2)`
+		href := fmt.Sprintf(`stringutil.CreateAbsoluteURL(dom.GetAttribute($%d,"href"),$%d)`, paramIndexOfType(gp, "*html.Node"), paramIndexOfType(gp, "*url.URL"))
 		pr := `url.ParseRequestURI(` + href + `)`
+		U := fmt.Sprintf("$%d", paramIndexOfType(gp, "*url.URL"))
 		paths, _, err := core.EnumerateDecisions(p, gp, core.DecisionOpts{
 			ResolvePhis: true, // the recorded URL may be a merge of a helper's results: render it per path
 			Outcome: func(in ssa.Instruction, c *core.Canon) (string, bool) {
@@ -145,7 +166,7 @@ func C16(p *core.Program, r *core.Report) {
 				lit[l.Atom] = tern(l.Val)
 			}
 			ok := strings.HasPrefix(v, "url.URL.String(") && strings.Contains(v, "url.Parse("+href+")#0") &&
-				lit[pr+`#1 == nil`] == 1 && lit[`$2.Host == `+pr+`#0.Host`] == 1 &&
+				lit[pr+`#1 == nil`] == 1 && (lit[U+`.Host == `+pr+`#0.Host`] == 1 || lit[pr+`#0.Host == `+U+`.Host`] == 1) &&
 				(lit[pr+`#0.Scheme == "http"`] == 1 || lit[pr+`#0.Scheme == "https"`] == 1)
 			if !ok {
 				bad++
